@@ -311,6 +311,19 @@ def run_case(case):
         m4 = Molecules(pos).rotate_by_euler_angle(ang, seq, degrees=deg, order="xyz")
         if _angle(m2.matrix()[0], m4.matrix()[0]) > 2e-6:
             viol.append((f"{ID}|roundtrip|rotate_by_euler-vs-from_euler", f"seq {seq}"))
+        # every (order, degrees) combination of rotate_by_euler_angle, from the identity and from a non-identity start,
+        # for copy=True and copy=False, against rotate_by with the same scipy rotation (wave 10: zyx x degrees)
+        R0 = data.rot_matrix("gen1")
+        for order, angles in (("xyz", ang), ("zyx", a2[None])):
+            for start_name, start in (("identity", np.eye(3)), ("gen1", R0)):
+                for cp in (True, False):
+                    ms = Molecules.from_matrix(pos.copy(), start[None].copy())
+                    ref = Molecules.from_matrix(pos.copy(), start[None].copy()).rotate_by(Rotation.from_matrix(R))
+                    got = ms.rotate_by_euler_angle(np.array(angles, dtype=np.float64), seq, degrees=deg, order=order, copy=cp)
+                    err = _angle(ref.matrix()[0], got.matrix()[0])
+                    if err > 2e-6:
+                        viol.append((f"{ID}|world-rotation|rotate_by_euler_angle|order={order}|degrees={deg}",
+                                     f"rotation {case['rot']}, seq {seq}, start {start_name}, copy={cp}: {err:.3g} rad away from rotate_by(R)"))
         return {"nontrivial": True, "outcome": "euler", "viol": viol}
     if fam == "axes":
         R = data.rot_matrix(case["rot"])
